@@ -50,13 +50,15 @@ class C07(Prop):
     search_budget_s = 240
     technique = ('Coq proof over translator-generated index functions (Flocq binary64) + correspondence on boundary grids, '
                  'judged by the extracted rule specification')
-    level_text = ('Machine-checked Coq theorems over Flocq binary64: the generated sampled / set / data-frame conversions and the '
-                  'hand model of the range conversion return exactly the index each matching rule defines (largest / smallest / equal '
+    level_text = ('Machine-checked Coq theorems over Flocq binary64: the generated sampled / set / data-frame / range conversions '
+                  '(the range conversion through its hand copy, proved equal to the generated one) return exactly the index each matching rule defines (largest / smallest / equal '
                   'coordinate, none when there is none), for every finite position, every positive interval and offset (sampled; only '
                   'monotonicity of the computed coordinates is used, which is proved), every label / row count, every strictly '
                   'ascending tick list; coordinate round trip and the start/end pair rule as corollaries; termination of the search '
-                  'loops within the fuel. The sampled / set / data-frame definitions are regenerated from src/Dimensions.cpp on every '
-                  'run; the range model and the dimension classes around them are tied by the correspondence run through the public API.')
+                  'loops within the fuel. The sampled / set / data-frame / range conversions, the four start/end pair conversions '
+                  'and (for the unit-carrying vector overloads) the retrieval model they are stated over are regenerated from '
+                  'src/Dimensions.cpp on every run or proved equal to the regenerated code; the dimension classes around them '
+                  '(tick storage, units, handles) and scalePositions / getSIScaling are tied by the correspondence run through the public API.')
     level_note = ('Trusted: Coq kernel, Flocq, stdlib real-number axioms (named in the evidence), the clang-AST translator, extraction '
                   'and driver glue; x86-64 SSE2 double arithmetic without contraction (-ffp-contract=off); std::lower_bound on a sorted '
                   'vector returns the first element not less than the key. Indices/positions beyond 2^52 (set, data frame) and 2^53 '
@@ -67,8 +69,10 @@ class C07(Prop):
     assumptions = ['coordinates of a sampled axis are the doubles positionAt() computes: fl(fl(i*dt)+offset)',
                    'positions at or beyond 2^52 on set / data-frame axes are not judged (the code refuses them)',
                    'a data-frame dimension over a frame with 0 rows and a set dimension without labels are unbounded axes (as the code has it)']
-    trusted_base = ['translator tools/translate/cxx2coq.py (getSampledIndex, lastSampleBelow, sampleBelow, getSetIndex, getDataFrameIndex, enums)',
-                    'hand model coq/Axis/RangeModel.v (getIndex, pair logic), tied by correspondence']
+    trusted_base = ['translator tools/translate/cxx2coq.py (getSampledIndex, lastSampleBelow, sampleBelow, getSetIndex, getDataFrameIndex, getIndex, '
+                    'the four indexOf(start, end, <axis>, RangeMatch) overloads, enums); iterators over the tick vector are modelled as indices, '
+                    '*it as a checked access, std::lower_bound over [begin, end) as the structural function lower_bound of coq/Axis/RangeModel.v',
+                    'hand model of scalePositions / positionToIndex with units (coq/Access/Retrieval.v, VecUnits.v), tied by correspondence (uvec / upos streams)']
 
     # -------------------------------------------------------------- generators
     def sampled_positions(self, rnd, dt, off, idxs):
